@@ -116,7 +116,7 @@ def vec_of(x, n):
         return None
 
 
-def gcall(ctx, sig, f, *a, **kw):
+def gcall(ctx, sig, f, *a, pure=True, **kw):
     """ctx.call + the side-effect oracle of the property on this single call: every argument object is bytewise unchanged and
     numpy's error configuration is as before, whether the call returned or raised"""
     snaps = [snap(x) for x in a]
@@ -128,7 +128,61 @@ def gcall(ctx, sig, f, *a, **kw):
         ctx.check(False, "side-effect:numpy-errstate", f"{sig}: numpy.geterr() was {err}, is {after}")
     for i, (x, sn) in enumerate(zip(a, snaps)):
         ctx.check(snap(x) == sn, "side-effect:argument", f"{sig}: argument {i} is now {show(x)}")
-    return ok, val
+    if not ok or not pure or not is_mutable_result(val):
+        return ok, val
+    # a returned container belongs to the caller: change it in place, then the same call must give the same answer again and the
+    # arguments must still be what they were (a result that is an argument / a cached object / internal state fails here)
+    first = snap(val)
+    arg_arrays = [x for x in a if isinstance(x, np.ndarray)]
+    if not scribble(val, arg_arrays):
+        return ok, val
+    for i, (x, sn) in enumerate(zip(a, snaps)):
+        ctx.check(snap(x) == sn, "side-effect:result-aliases-argument", f"{sig}: changing the returned object in place changed argument {i} to {show(x)}")
+    ok2, val2 = ctx.call(sig, f, *a, **kw)
+    if ok2:
+        ctx.check(snap(val2) == first, "side-effect:result-aliases-state",
+                  f"{sig}: after the first result was changed in place by its owner, the same call returns {show(val2)} instead of the first answer")
+    return ok2, val2
+
+
+def is_box(o):
+    return type(o).__name__ == "AABB" and hasattr(o, "pad")
+
+
+def is_mutable_result(v):
+    if isinstance(v, np.ndarray):
+        return v.ndim >= 1 and v.size > 0
+    if is_box(v):
+        return True
+    if isinstance(v, list):
+        return True
+    if isinstance(v, tuple):
+        return any(is_mutable_result(x) for x in v)
+    return False
+
+
+def scribble(v, arg_arrays):
+    """change a returned object in place the way its owner may; False if nothing could be changed (e.g. documented view of an argument)"""
+    if isinstance(v, np.ndarray):
+        if not v.flags.writeable or any(np.shares_memory(v, x) for x in arg_arrays):
+            return False              # Vec(ndarray) / 'pt is its own projection' are views of the argument (numpy semantics, see ASSUMPTIONS)
+        try:
+            v[...] = 7 if v.dtype.kind in "iu" else True if v.dtype.kind == "b" else 12345.678
+        except Exception:
+            return False
+        return True
+    if is_box(v):
+        try:
+            v.pad(1.0)
+        except Exception:
+            return False
+        return True
+    if isinstance(v, list):
+        v.append("scribble")
+        return True
+    if isinstance(v, tuple):
+        return any([scribble(x, arg_arrays) for x in v if is_mutable_result(x)])
+    return False
 
 
 def make(vals, form):
@@ -437,7 +491,7 @@ def fn_aabb(case, ctx):
         else:
             parg, pv = float(pad), np.full(dim, max(float(pad), 0.0))
         ctx.label("pad=" + ("vector" if isinstance(pad, list) else "scalar"), "pad-int-box" if form in ("i8", "ivec") and mode == "int" else "pad-float-box")
-        ok, r = gcall(ctx, "AABB.pad", pb.pad, parg)
+        ok, r = gcall(ctx, "AABB.pad", pb.pad, parg, pure=False)
         if ok:
             plo, phi = corners(pb, "AABB.pad")
             if plo is not None:
@@ -634,7 +688,7 @@ def fn_vector(case, ctx):
                 ctx.check(uv is not None and isinstance(u, Vec) and bool(np.all(np.abs(uv - expect) <= 1e-12)), "Vec.normalized",
                           f"normalized({A},{which}) = {u!r}, expected {expect}")
             w = Vec([float(x) for x in A])
-            ok, _ = gcall(ctx, "Vec.normalize", w.normalize, which)
+            ok, _ = gcall(ctx, "Vec.normalize", w.normalize, which, pure=False)
             if ok:
                 ctx.check(bool(np.all(np.abs(np.asarray(w) - expect) <= 1e-12)), "Vec.normalize", f"Vec({A}).normalize({which}) -> {w!r}, expected {expect}")
 
@@ -1271,6 +1325,16 @@ def machine_case(draw):
         st.tuples(mop("AABB.frombox", M_BOX), mop("box.pad", last, padarg)).map(list),
         st.tuples(mop("AABB", arr(), arr()), mop("AABB.frombox", last), mop("box.pad", st.sampled_from([["b", -1], ["b", -2]]), padarg)).map(list),
         st.tuples(mop("box.get", M_BOX, st.sampled_from(["mini", "maxi"])), mop("box.pad", M_BOX, padarg)).map(list),
+        # a box computed from two boxes (same box twice / a copy / a padded copy / a unit cube inside a larger box) is padded
+        st.tuples(mop("box.binary", M_BOX, M_BOX, st.sampled_from(["union", "or", "intersection", "and"])), mop("box.pad", last, padarg)).map(list),
+        st.integers(0, 30).flatmap(lambda k: st.tuples(mop("box.binary", st.just(["b", k]), st.just(["b", k]), st.sampled_from(["union", "or", "intersection", "and"])),
+                                                      mop("box.pad", last, padarg)).map(list)),
+        st.tuples(mop("AABB.frombox", M_BOX), mop("box.pad", last, padarg), mop("AABB.frombox", st.sampled_from([["b", -1], ["b", -2]])),
+                  mop("box.binary", st.sampled_from([["b", -1], ["b", -2], ["b", -3]]), st.sampled_from([["b", -1], ["b", -2], ["b", -3]]),
+                      st.sampled_from(["union", "or", "intersection", "and"])), mop("box.pad", last, padarg)).map(list),
+        st.tuples(mop("AABB.unit_cube", st.just(D), st.booleans()), mop("AABB.frombox", last), mop("box.pad", last, padarg.filter(lambda x: x != 0)),
+                  mop("box.binary", st.sampled_from([["b", -1], ["b", -2]]), st.sampled_from([["b", -1], ["b", -2]]), st.sampled_from(["union", "or", "intersection", "and"])),
+                  mop("box.pad", last, padarg)).map(list),
         st.tuples(mop("AABB.of_points", st.tuples(st.just("pts"), st.lists(m_vals(D), min_size=1, max_size=4), st.sampled_from(["f8", "i8", "vecs"])).map(list), M_NUM.map(abs)),
                   mop("box.pad", last, padarg)).map(list))
     fams = m_ops(D)
@@ -1291,6 +1355,8 @@ def snap(o):
         return (type(o).__name__,) + tuple(snap(x) for x in o)
     if isinstance(o, (bool, int, float, complex, str, type(None), np.generic)):
         return ("s", type(o).__name__, repr(o))
+    if is_box(o):
+        return ("box", snap(o.mini), snap(o.maxi))
     return ("obj", id(o))
 
 
@@ -1311,11 +1377,17 @@ def fn_machine(case, ctx):
     origin = {}                         # id -> how the object came to exist (for messages)
     mesh = pointcloud_from(case["mesh"]) if case["mesh"] else None
 
+    box_origin = []                     # per box handle
+    handles = []                        # box handles resolved for the current step, in argument order
+
     def track(o, why):
         if isinstance(o, AABB):
-            if not any(o is b for b in boxes):
-                boxes.append(o)
-                origin[id(o)] = why
+            # every box a step returns is, for the caller, a box of its own: one handle per returned box, even when the library hands
+            # back an object it was given (then a later pad of one handle shows up as a change of the other one)
+            if any(o is b for b in boxes):
+                ctx.label("result-is-existing-box")
+            boxes.append(o)
+            box_origin.append(why)
         elif isinstance(o, np.ndarray):
             if not any(o is a for a in arrays):
                 arrays.append(o)
@@ -1350,7 +1422,8 @@ def fn_machine(case, ctx):
         if tag == "b":
             if not boxes:
                 track(AABB(np.zeros(D), np.ones(D)), f"box created for step {step}")
-            return boxes[spec[1] % len(boxes)]
+            handles.append(spec[1] % len(boxes))
+            return boxes[handles[-1]]
         if tag == "pts":
             rows, form = spec[1], spec[2]
             n = min(len(r) for r in rows)
@@ -1414,6 +1487,7 @@ def fn_machine(case, ctx):
             args = [np.array(op[1], dtype=float)]
             track(args[0], f"caller matrix created for step {step}")
         else:
+            del handles[:]
             args = [resolve(s, step) for s in op[1:]]
         where = f"step {step}: {name}({', '.join(show(a) if not isinstance(a, AABB) else repr(a) for a in args)})"
         receiver = args[0] if name in INPLACE_VEC or name == "box.pad" else None
@@ -1428,7 +1502,9 @@ def fn_machine(case, ctx):
             exempt_arr = {i for i, a in enumerate(arrays) if a is receiver or np.shares_memory(a, receiver)}
             exempt_box = {i for i, b in enumerate(boxes) if np.shares_memory(b.mini, receiver) or np.shares_memory(b.maxi, receiver)}
         elif name == "box.pad" and isinstance(receiver, AABB):
-            exempt_box = {i for i, b in enumerate(boxes) if b is receiver}
+            exempt_box = {handles[0]}            # the receiver handle only: no other box of the history may change
+            if any(i != handles[0] and b is receiver for i, b in enumerate(boxes)):
+                ctx.label("pad:receiver-was-returned-for-another-box")
             exempt_arr = {i for i, a in enumerate(arrays) if a is receiver.mini or a is receiver.maxi}
             if any(i not in exempt_arr and (np.shares_memory(a, receiver.mini) or np.shares_memory(a, receiver.maxi)) for i, a in enumerate(arrays)):
                 ctx.label("pad:box-shares-caller-array")
@@ -1481,7 +1557,8 @@ def fn_machine(case, ctx):
             same_box = snap(b.mini) == s0 and snap(b.maxi) == S0
             if not same_box:
                 what = "argument box" if any(b is a for a in args) else "box"
-                ctx.check(False, "side-effect:other-box", f"{where} {outcome}: {what} #{i} ({origin.get(id(b))}) changed to {b!r}")
+                alias = " - it is the very same object as the receiver" if receiver is b else ""
+                ctx.check(False, "side-effect:other-box", f"{where} {outcome}: {what} #{i} ({box_origin[i]}) changed to {b!r}{alias}")
             else:
                 ctx.n_assert += 1
         if mesh is not None:
